@@ -8,6 +8,9 @@ over a prefix `us` of the grid (`ts = us ++ vs`); `f` is false on the record of 
 non-empty prefix of `us` (every earlier computed instant), and if the run ended early (`vs ≠ []`)
 `f` is true on the last record.  Nothing is recorded after it (`stop_times`).  The initial
 instant of a fresh run is never tested (`fresh_run_records_two`).
+`run_stop_steps` lifts this to `Solver.run`, fresh or continued: the stopped run of `n` steps *is* the unstopped run
+of `m ≤ n` steps, true at its end if `m < n`, false at the end of every run of `1 ≤ k < m` steps;
+`stop_steps_unique`: that `m` is unique.
 `stopCond` instantiates `f` with a sensor reading, one of the five operators and a threshold.
 -/
 
@@ -128,6 +131,81 @@ theorem stopNow_stopCond (cx : CmpCtx) (sen : Sensor) (op : Cmp) (thr : Q) (s : 
     stopNow (some (stopCond cx sen op thr)) s = cmpSI cx op (sen.read r) thr := by
   simp [stopNow, h, stopCond]
 
+/-! ### at the level of `Solver.run`: the stopped run is the unstopped run of the first step count that satisfies the condition -/
+theorem grid_take (t0 dt : Q) (n m : Nat) (h : m ≤ n) : (grid t0 dt n).take m = grid t0 dt m := by
+  simp [grid, ← List.map_take, List.take_range, Nat.min_eq_left h]
+
+/-- the stopped loop over `n` grid points is the unstopped loop over the first `m ≤ n` of them, `m` being the
+    **first** step count at which the predicate holds -/
+theorem loop_stop_steps (c : Cfg) (dt : Q) (f : Rec → Bool) (t0 : Q) (n : Nat) (s s' : St)
+    (h : loop c dt (some f) (grid t0 dt n) s = .ok s') :
+    ∃ m, m ≤ n ∧ loop c dt none (grid t0 dt m) s = .ok s' ∧ (m < n → stopNow (some f) s' = true) ∧
+      ∀ k sm, 0 < k → k < m → loop c dt none (grid t0 dt k) s = .ok sm → stopNow (some f) sm = false := by
+  obtain ⟨us, vs, hts, hl, hv, hp⟩ := stop_prefix c dt f _ s s' h
+  have hlen : us.length + vs.length = n := by
+    have := congrArg List.length hts; simp [grid] at this; omega
+  have hus : us = grid t0 dt us.length := by
+    have := congrArg (List.take us.length) hts
+    rw [grid_take t0 dt n us.length (by omega)] at this
+    simpa using this.symm
+  refine ⟨us.length, by omega, by rw [← hus]; exact hl, ?_, ?_⟩
+  · intro hm; apply hv; intro he; subst he; simp at hlen; omega
+  · intro k sm hk hkm hlk
+    have hk' : grid t0 dt k = us.take k := by
+      have := grid_take t0 dt us.length k (by omega)
+      rw [← hus] at this; exact this.symm
+    refine hp (us.take k) (us.drop k) sm (List.take_append_drop k us).symm ?_ ?_ (by rw [← hk']; exact hlk)
+    · intro he
+      have : (us.take k).length = 0 := by rw [he]; rfl
+      rw [List.length_take] at this; omega
+    · intro he
+      have : (us.drop k).length = 0 := by rw [he]; rfl
+      rw [List.length_drop] at this; omega
+
+/-- **C16 at the level of `Solver.run`** (fresh or continued): a run of `n` steps with a stop condition returns
+    exactly what the run of `m ≤ n` steps without one returns; if it ended early (`m < n`) the comparison is true at
+    the last recorded instant; and it is false at the end of every shorter run of `1 ≤ k < m` steps — i.e. at every
+    earlier computed instant.  The initial instant (`k = 0`) is not tested. -/
+theorem run_stop_steps (c : Cfg) (dt : Q) (n : Nat) (f : Rec → Bool) (s s' : St)
+    (h : run c dt n (some f) s = .ok s') :
+    ∃ m, m ≤ n ∧ run c dt m none s = .ok s' ∧ (m < n → stopNow (some f) s' = true) ∧
+      ∀ k sm, 0 < k → k < m → run c dt k none s = .ok sm → stopNow (some f) sm = false := by
+  unfold run at h
+  cases hl : lastTime s with
+  | some t0 =>
+    simp only [hl] at h
+    obtain ⟨m, hm, h1, h2, h3⟩ := loop_stop_steps c dt f t0 n s s' h
+    refine ⟨m, hm, by simp only [run, hl]; exact h1, h2, ?_⟩
+    intro k sm hk hkm hr
+    simp only [run, hl] at hr
+    exact h3 k sm hk hkm hr
+  | none =>
+    simp only [hl] at h
+    cases hc : compute c { s with locked := false } 0 with
+    | error e => simp [hc] at h
+    | ok s0 =>
+      simp only [hc] at h
+      obtain ⟨m, hm, h1, h2, h3⟩ := loop_stop_steps c dt f 0 n s0 s' h
+      refine ⟨m, hm, by simp only [run, hl, hc]; exact h1, h2, ?_⟩
+      intro k sm hk hkm hr
+      simp only [run, hl, hc] at hr
+      exact h3 k sm hk hkm hr
+
+/-- the stopping step count is unique: two step counts that both satisfy the characterisation coincide — "the first
+    instant at which it holds" is well defined -/
+theorem stop_steps_unique (c : Cfg) (dt : Q) (n : Nat) (f : Rec → Bool) (s s1 s2 : St) (m1 m2 : Nat)
+    (h1 : run c dt m1 none s = .ok s1) (h2 : run c dt m2 none s = .ok s2)
+    (e1 : m1 < n → stopNow (some f) s1 = true) (e2 : m2 < n → stopNow (some f) s2 = true)
+    (p1 : ∀ k sm, 0 < k → k < m1 → run c dt k none s = .ok sm → stopNow (some f) sm = false)
+    (p2 : ∀ k sm, 0 < k → k < m2 → run c dt k none s = .ok sm → stopNow (some f) sm = false)
+    (l1 : m1 ≤ n) (l2 : m2 ≤ n) (z1 : 0 < m1) (z2 : 0 < m2) : m1 = m2 := by
+  rcases Nat.lt_trichotomy m1 m2 with hlt | heq | hgt
+  · have := p2 m1 s1 z1 hlt h1
+    rw [e1 (by omega)] at this; exact absurd this (by simp)
+  · exact heq
+  · have := p1 m2 s2 z2 hgt h2
+    rw [e2 (by omega)] at this; exact absurd this (by simp)
+
 /-! ### non-vacuity: a run of 6 steps with `time ≥ 1/2` stops after 2 steps (3 records) -/
 def exCfg : Cfg :=
   { J0 := 1, links := [⟨2, 9/10, 1/2, true⟩], sl := false, tolW := 0, tolT := 0,
@@ -135,5 +213,11 @@ def exCfg : Cfg :=
     load := fun _ _ _ => 1/10, control := none }
 example : (match exec exCfg [.run (1/4) 6 (some fun r => decide (r.time ≥ 1/2))] (St.init 0 0) with
     | .ok s => s.recs.length | .error _ => 0) = 3 := by decide +kernel
+
+/-- the stopped run of 6 steps records what the unstopped run of 2 steps records (`run_stop_steps` with `m = 2`) -/
+example : (match exec exCfg [.run (1/4) 6 (some fun r => decide (r.time ≥ 1/2))] (St.init 0 0) with
+    | .ok s => s.recs.map (fun (r : Rec) => (r.time, r.speed, r.pos)) | .error _ => []) =
+    (match exec exCfg [.run (1/4) 2 none] (St.init 0 0) with
+    | .ok s => s.recs.map (fun (r : Rec) => (r.time, r.speed, r.pos)) | .error _ => []) := by decide +kernel
 
 end Gearpy.C16
